@@ -17,7 +17,7 @@ from . import common, model, edit, drive
 from .common import Reporter, run_tlc, MachineryError
 from .model import IdMap, build, project
 
-MODS = {"quick": {"star": 45, "ethene": 1}, "thorough": {"star": 1, "ethene": 1}}
+MODS = {"quick": {"star": 45, "ethene": 1}, "thorough": {"star": 4, "ethene": 1}}
 CLAUSES = ("reactant", "product", "formed", "broken", "fleeting", "allbonds", "encoding", "revsides", "revfleet", "revrev")
 
 
@@ -97,20 +97,26 @@ def run(tier):
                                   {"record": rec, "incoherent": bad})
                     continue
                 recs.append(rec)
-    # TLC validates
-    d = tempfile.mkdtemp(prefix="smg-obsr-")
-    try:
-        path = os.path.join(d, "obs.ndjson")
-        with open(path, "w") as f:
-            for r in recs:
-                f.write(json.dumps(r, separators=(",", ":")) + "\n")
-        res = run_tlc("Obs_React", cfg="Obs_React.cfg", env={"OBS_FILE": path}, workers=16, prefixes=("OK", "BAD"),
-                      timeout=3000, heap="12g")
-    finally:
-        shutil.rmtree(d, ignore_errors=True)
-    common.tlc_ok(res, "Obs_React")
+    # TLC validates (in chunks: one TLC run parses its whole record file into memory)
+    lines = []
+    CH = 8000
+    for k in range(0, len(recs), CH):
+        d = tempfile.mkdtemp(prefix="smg-obsr-")
+        try:
+            path = os.path.join(d, "obs.ndjson")
+            with open(path, "w") as f:
+                for r in recs[k:k + CH]:
+                    f.write(json.dumps(r, separators=(",", ":")) + "\n")
+            res = run_tlc("Obs_React", cfg="Obs_React.cfg", env={"OBS_FILE": path}, workers=16, prefixes=("OK", "BAD"),
+                          timeout=3000, heap="12g")
+        finally:
+            shutil.rmtree(d, ignore_errors=True)
+        common.tlc_ok(res, "Obs_React")
+        lines += res.lines
+        states += res.distinct
+        gen += res.generated
     ok, bad = set(), {}
-    for pre, o in res.lines:
+    for pre, o in lines:
         if pre == "OK":
             ok.add(int(o))
         else:
